@@ -44,7 +44,7 @@ CHECKS = {
         text="Ground truth (what would be resolved / called) comes from executing each program on the reference VM with inert stubs and from "
         "labels fixed in vp/vocab.py, never from fickling. Explored: all programs over core+labelled-global alphabets to depth 4/5 (2-3 "
         "vocabulary groups incl. same-named benign/dangerous pairs), deviation-1 variants of natural object pickles, and the full "
-        "product vocabulary(33, incl. dotted protocol-4 callees reached through a benign module) x resolve form(8, incl. sparse/overwriting memo layouts) x call form(8) x disposal(11) x prefix(6).",
+        "product vocabulary(36, incl. dotted protocol-4 callees reached through a benign module and dotted builtin method names) x resolve form(8, incl. sparse/overwriting memo layouts) x call form(8) x disposal(11) x prefix(6).",
         ref="§3/C04",
         note="Trusted: the label table; the floor table transcribed from the property statement; one-directional comparison.",
     ),
@@ -75,7 +75,7 @@ CHECKS = {
         technique=E1 + "; terminal oracle: check_safety returns well-formed JSON-serialisable findings and the checked loader's error carries the same report; plus an exhaustive module x name x opcode x PROTO product",
         text="All decompilable programs over core + special-cased globals to depth 4/5, a statement-shape alphabet one deeper, the corpus and "
         "its deviation-1 variants, and the product 24 modules x 17 attribute names (every name a rule special-cases) x 2 resolving opcodes x "
-        "7 uses x 5 PROTO placements (~28k programs), a second PROTO at every position up to 40; the loader's error report is compared at three thresholds, each fed from a different kind of "
+        "7 uses x 5 PROTO placements (~28k programs), a second PROTO at every position up to 40; every eighth program also with the JSON report going to a path that already exists; the loader's error report is compared at three thresholds, each fed from a different kind of "
         "stream (in memory, raw non-seekable, buffered non-seekable).",
         ref="§3/C19",
         note="Trusted: pickle.loads replaced by a recorder during fickling.load so nothing generated is really unpickled.",
@@ -83,8 +83,8 @@ CHECKS = {
     "C11": dict(
         level="model_checking",
         technique=E2 + "; model = (BASE, current additions); every history without state matching to depth 4/5, then with matching deeper",
-        text="All histories over activate(A) for 6 addition sets / deactivate / probe (loads of every probe global, refused ones included) / "
-        "construct-unpickler(A) up to depth 4 (quick, 41k histories) or 5, "
+        text="All histories over activate(A) for 7 addition sets / deactivate / probe (loads of every probe global, refused ones included) / "
+        "construct-unpickler(A) up to depth 4 (quick, 70k histories) or 5, "
         "each replayed on the real process from a reset that owns module-level and class-level data; after every step 7 probe globals are loaded through pickle.load, pickle.loads and _pickle.loads and "
         "through a private unpickler instance, and ML_ALLOWLIST (also as seen by the MLAllowlist analysis) is deep-compared with a pristine copy.",
         ref="§3/C11, §2/E2",
@@ -197,7 +197,7 @@ CHECKS = {
         "_pickle.loads | pickle.loads on a BYTEARRAY8 payload) x (bare pickle | legacy torch container | zip torch container), 7 leaf globals (incl. INST-only, dotted protocol-4 "
         "names, unlisted member of a listed module, an import-only stdlib name the static analysis passes), through the 4 hooked entry points, "
         "bytearray / memoryview arguments, and pickle.load with fickling's static hook (global or context manager) layered on top, under 4 addition sets, "
-        "also after a re-activation (the earlier activation used once) without removal. After every protected load a follow-up load of a non-listed global under the same activation must still be refused. "
+        "also after a re-activation (the earlier activation used once) without removal; one stream holding two pickles read by two loads with a re-activation in between. After every protected load a follow-up load of a non-listed global under the same activation must still be refused. "
         "Every pickle.find_class audit event during the protected load must be allowed (the built-in allowlist is taken once, before any activation); if the reference load reaches "
         "a global outside the allowed set the protected load must raise UnsafeFileError and the sink must stay empty.",
         ref="§3/C07",
@@ -219,7 +219,8 @@ CHECKS = {
         text="32 marker subsets x placement x leading junk x trailer; 9 real files (torch.save zip/legacy, torch.jit.save, legacy tar, MAR, plain zip, "
         "text, plain pickle); identification twice (determinism), sha256 and directory listing (read-only); every ordered pair through "
         "create_polyglot, then for each pair the k-th copy/write/extract/append call raises OSError for every k: inputs unchanged, no "
-        "temporary file or directory left, successful outputs identified as both formats.",
+        "temporary file or directory left, successful outputs identified as both formats; several values of the version record; recursive "
+        "identification of a tar / zip whose member names are traversal or absolute paths (whole scratch tree listed before and after).",
         ref="§3/C17",
         note="Trusted: decision table transcribed from the documentation; torch's own zip reader for the 'accepted by torch' clause; numpy files are "
         "left out (fickling's numpy probe uses a private numpy attribute that numpy 2.5 no longer has; the repo's own numpy tests fail for that reason).",
